@@ -60,6 +60,12 @@ SimAligned(f) ==
     /\ Len(f.sim.lens) = Len(f.ins.obs)
     /\ \A k \in 1..Len(f.sim.lens) : f.sim.start[k] = FieldLo
 SimFits(f, k) == f.sim.lens[k] <= FieldWidth
+(* the k-th value of the --observations output is the simulated value at the level of the k-th
+   observation: it equals the k-th row of the tabulated output, whose level is the k-th level
+   of the measured curves (rise ascending, then recession from highest to lowest) *)
+SimAtSameLevels(f) ==
+    /\ f.sim.values = f.table.values
+    /\ f.table.levels = f.masterlevels
 TemplateFills(f) == f.tpl.filled = f.tpl.original
 ShapeAsExpected(f, sh) ==
     /\ f.pst.pars = ParNames(sh)
